@@ -148,7 +148,7 @@ func c14ForeignReads(cm *c14Model, f *kit.Func, fparam *types.Var) (viol, undec 
 			return true
 		}
 		base, fv, ok := kit.FieldSel(info, sel)
-		if !ok || (fv != cm.trF[0] && fv != cm.trF[1]) {
+		if !ok || (fv != cm.trF[0] && fv != cm.trF[1] && (cm.wdCache == nil || fv != cm.wdCache)) {
 			return true
 		}
 		if cm.m.isElemOf(f, base, cm.tr) && deciding[cm.m.elemRange(f, base)] {
